@@ -224,8 +224,8 @@ Qed.
 Lemma orb_false_meta : forall e, e_meta e || is_alias e = false -> e_meta e = false.
 Proof. intros. apply orb_false_iff in H. tauto. Qed.
 
-Lemma Inv_add : forall s viaspec parent nm ty frag hid ins scs v,
-  Inv s -> Inv (fst (op_add s viaspec parent nm ty frag hid ins scs v)).
+Lemma Inv_add : forall c s viaspec parent praw nm ty frag hid ins scs v,
+  Inv s -> Inv (fst (op_add c s viaspec parent praw nm ty frag hid ins scs v)).
 Proof.
   intros. unfold op_add. destruct viaspec.
   - destruct (negb (ty =? T_CONST) || negb (valid_name nm)) eqn:TC; simpl; auto.
@@ -243,6 +243,7 @@ Proof.
   - destruct parent.
     + destruct (find_nd (s_ents s) n) eqn:FP; simpl; auto.
       destruct (e_meta e || is_alias e) eqn:MA; simpl; auto.
+      destruct (dotted_parent c praw); simpl; auto.
       apply Inv_add_go; auto. split; [eapply find_nd_In; eauto | apply orb_false_meta; auto].
     + destruct (NFRAG <=? frag); simpl; auto.
       destruct nm as [|c0 rest]; [apply Inv_add_go; simpl; auto|].
@@ -256,12 +257,13 @@ Proof.
         split; auto. eapply find_nd_In; eauto.
 Qed.
 
-Lemma Inv_alias : forall s parent nm tgt frag, Inv s -> Inv (fst (op_alias s parent nm tgt frag)).
+Lemma Inv_alias : forall c s parent praw nm tgt frag, Inv s -> Inv (fst (op_alias c s parent praw nm tgt frag)).
 Proof.
   intros. unfold op_alias. destruct (NFRAG <=? frag); simpl; auto.
   destruct parent.
   - destruct (find_nd (s_ents s) n) eqn:FP; simpl; auto.
     destruct (e_meta e || is_alias e) eqn:MA; simpl; auto.
+    destruct (dotted_parent c praw); simpl; auto.
     apply Inv_alias_go; auto. split; [eapply find_nd_In; eauto | apply orb_false_meta; auto].
   - destruct nm as [|c0 rest]; [apply Inv_alias_go; simpl; auto|].
     destruct (first_slash rest) as [[pre0 sb]|]; [|apply Inv_alias_go; simpl; auto].
@@ -852,10 +854,10 @@ Theorem Inv_step : forall c s o, InvAll s -> op_in_scope s o -> InvAll (fst (ste
 Proof.
   intros c s o (SS & IV) HO. split; [apply sorted_step; auto|].
   destruct o.
-  - unfold step. destruct (affixed s); [simpl; auto|]. apply Inv_add; auto.
-  - unfold step. destruct (affixed s); [simpl; auto|]. apply Inv_alias; auto.
+  - unfold step. destruct (affixed s); [simpl; auto|]. destruct (has_dot nm); [simpl; auto|]. apply Inv_add; auto.
+  - unfold step. destruct (affixed s); [simpl; auto|]. destruct (has_dot nm); [simpl; auto|]. apply Inv_alias; auto.
   - unfold step. destruct (affixed s); [simpl; auto|]. apply Inv_del; auto.
-  - unfold step. destruct (affixed s); [simpl; auto|]. apply Inv_ren; auto.
+  - unfold step. destruct (affixed s); [simpl; auto|]. destruct (has_dot new); [simpl; auto|]. apply Inv_ren; auto.
   - unfold step. destruct (affixed s); [simpl; auto|]. apply Inv_move; auto.
   - unfold step. destruct (affixed s); [simpl; auto|]. apply Inv_hide; auto.
   - simpl in HO. tauto.
